@@ -7,6 +7,7 @@ import (
 	"go/ast"
 	"go/types"
 	"strings"
+	"sync"
 )
 
 func (c *FCtx) calleeOf(call *ast.CallExpr) (*types.Func, ast.Expr) {
@@ -214,17 +215,117 @@ func (c *FCtx) deadResults(st *State, sig *types.Signature) []Val {
 	return out
 }
 
-// namesUsable: the contract's `names` table describes the same list of declarations as the current source (same
-// number of parameters, named results and locals), so a contract name that no longer exists can be resolved by position.
-func namesUsable(fi *FuncInfo, con *Contract) bool {
-	return fi != nil && con != nil && len(con.Names) > 0 && len(con.Names) == len(fi.DeclOrder) && con.NamesIn == fi.NSigIn && con.NamesOut == fi.NSigOut
+// alignNames maps every entry of the contract's `names` table (the variables the function declared when the contract
+// was written: receiver+parameters | named results | locals) to the index of the corresponding variable in the
+// function's CURRENT declaration list, or -1.  Each of the three groups is aligned on its own: equal length means
+// position by position; otherwise the names common to both lists (longest common subsequence) are anchors and the
+// stretches between two anchors are paired in order from their start.
+var alignCache sync.Map // *Contract -> []int
+
+func alignNames(fi *FuncInfo, con *Contract) []int {
+	if fi == nil || con == nil || len(con.Names) == 0 || len(fi.DeclOrder) == 0 {
+		return nil
+	}
+	if v, ok := alignCache.Load(con); ok {
+		return v.([]int)
+	}
+	out := make([]int, len(con.Names))
+	for k := range out {
+		out[k] = -1
+	}
+	cur := make([]string, len(fi.DeclOrder))
+	for k, v := range fi.DeclOrder {
+		cur[k] = v.Name()
+	}
+	group := func(r0, r1, c0, c1 int) {
+		rec, now := con.Names[r0:r1], cur[c0:c1]
+		if len(rec) == len(now) {
+			for k := range rec {
+				out[r0+k] = c0 + k
+			}
+			return
+		}
+		// LCS table
+		n, m := len(rec), len(now)
+		L := make([][]int, n+1)
+		for a := range L {
+			L[a] = make([]int, m+1)
+		}
+		for a := n - 1; a >= 0; a-- {
+			for b := m - 1; b >= 0; b-- {
+				if rec[a] == now[b] {
+					L[a][b] = L[a+1][b+1] + 1
+				} else if L[a+1][b] >= L[a][b+1] {
+					L[a][b] = L[a+1][b]
+				} else {
+					L[a][b] = L[a][b+1]
+				}
+			}
+		}
+		a, b := 0, 0
+		ga, gb := 0, 0 // start of the current gap
+		flush := func(ea, eb int) {
+			// a stretch between two anchors: paired in order from its start.  With equal lengths this is a renaming in
+			// place; with different lengths (a variable added or removed in the stretch) it is a guess, and a wrong
+			// guess can only make an obligation fail - every obligation is still proved under the resolved names
+			for k := 0; k < ea-ga && k < eb-gb; k++ {
+				out[r0+ga+k] = c0 + gb + k
+			}
+		}
+		for a < n && b < m {
+			if rec[a] == now[b] {
+				flush(a, b)
+				out[r0+a] = c0 + b
+				a++
+				b++
+				ga, gb = a, b
+			} else if L[a+1][b] >= L[a][b+1] {
+				a++
+			} else {
+				b++
+			}
+		}
+		flush(n, m)
+	}
+	rin, rout := con.NamesIn, con.NamesOut
+	if rin+rout > len(con.Names) || fi.NSigIn+fi.NSigOut > len(cur) {
+		alignCache.Store(con, out)
+		return out
+	}
+	group(0, rin, 0, fi.NSigIn)
+	group(rin, rin+rout, fi.NSigIn, fi.NSigIn+fi.NSigOut)
+	group(rin+rout, len(con.Names), fi.NSigIn+fi.NSigOut, len(cur))
+	alignCache.Store(con, out)
+	return out
+}
+
+// recordedSig: the contract's own names for receiver+parameters (or named results), when every one of them is
+// aligned position by position with the current declaration.
+func recordedSig(fi *FuncInfo, con *Contract, results bool) []string {
+	al := alignNames(fi, con)
+	if al == nil {
+		return nil
+	}
+	lo, hi, base, cnt := 0, con.NamesIn, 0, fi.NSigIn
+	if results {
+		lo, hi, base, cnt = con.NamesIn, con.NamesIn+con.NamesOut, fi.NSigIn, fi.NSigOut
+	}
+	if hi-lo != cnt || cnt == 0 {
+		return nil
+	}
+	for k := lo; k < hi; k++ {
+		if al[k] != base+(k-lo) {
+			return nil
+		}
+	}
+	return append([]string(nil), con.Names[lo:hi]...)
 }
 
 func paramNames(fi *FuncInfo, con *Contract, fn *types.Func) (names []string) {
 	if fi != nil {
 		defer func() {
 			// the names the contract was written with, when parameters have been renamed since
-			if namesUsable(fi, con) && len(names) == fi.NSigIn {
+			if rec := recordedSig(fi, con, false); rec != nil && len(names) == len(rec) {
 				ok := true
 				for _, n := range names {
 					if n == "_" || n == "_recv" {
@@ -232,7 +333,7 @@ func paramNames(fi *FuncInfo, con *Contract, fn *types.Func) (names []string) {
 					}
 				}
 				if ok {
-					copy(names, con.Names[:con.NamesIn])
+					copy(names, rec)
 				}
 			}
 		}()
@@ -279,8 +380,8 @@ func resultNames(fi *FuncInfo, con *Contract, fn *types.Func) []string {
 	if con != nil && len(con.Results) > 0 {
 		return con.Results
 	}
-	if namesUsable(fi, con) && con.NamesOut == sig.Results().Len() && con.NamesOut > 0 {
-		return append([]string(nil), con.Names[con.NamesIn:con.NamesIn+con.NamesOut]...)
+	if rec := recordedSig(fi, con, true); rec != nil && len(rec) == sig.Results().Len() {
+		return rec
 	}
 	for i := 0; i < sig.Results().Len(); i++ {
 		n := sig.Results().At(i).Name()
@@ -436,10 +537,10 @@ func (c *FCtx) havocRegion(st *State, r Region, name string) {
 
 // refArgs lists the memory an argument value refers to (for the disjointness obligations).
 type refArg struct {
-	name  string
-	cell  int
-	path  []Sel
-	isLV  bool
+	name   string
+	cell   int
+	path   []Sel
+	isLV   bool
 	lo, hi *Term
 }
 
